@@ -21,24 +21,77 @@ pub fn worlds(net: &Net, tier: Tier, idx: u64) -> Vec<World> {
         (DistanceUnit::Miles, DistanceUnit::Meters),
     ];
     let speed_units: Vec<(SpeedUnit, DistanceUnit, TimeUnit, DistanceUnit, TimeUnit)> = vec![
-        (SpeedUnit::KilometersPerHour, DistanceUnit::Meters, TimeUnit::Seconds, DistanceUnit::Meters, TimeUnit::Seconds),
-        (SpeedUnit::MetersPerSecond, DistanceUnit::Meters, TimeUnit::Seconds, DistanceUnit::Meters, TimeUnit::Seconds),
-        (SpeedUnit::MilesPerHour, DistanceUnit::Miles, TimeUnit::Hours, DistanceUnit::Miles, TimeUnit::Hours),
-        (SpeedUnit::KilometersPerHour, DistanceUnit::Kilometers, TimeUnit::Minutes, DistanceUnit::Feet, TimeUnit::Milliseconds),
-        (SpeedUnit::MilesPerHour, DistanceUnit::Feet, TimeUnit::Milliseconds, DistanceUnit::Kilometers, TimeUnit::Minutes),
-        (SpeedUnit::MetersPerSecond, DistanceUnit::Inches, TimeUnit::Hours, DistanceUnit::Meters, TimeUnit::Seconds),
+        (
+            SpeedUnit::KilometersPerHour,
+            DistanceUnit::Meters,
+            TimeUnit::Seconds,
+            DistanceUnit::Meters,
+            TimeUnit::Seconds,
+        ),
+        (
+            SpeedUnit::MetersPerSecond,
+            DistanceUnit::Meters,
+            TimeUnit::Seconds,
+            DistanceUnit::Meters,
+            TimeUnit::Seconds,
+        ),
+        (
+            SpeedUnit::MilesPerHour,
+            DistanceUnit::Miles,
+            TimeUnit::Hours,
+            DistanceUnit::Miles,
+            TimeUnit::Hours,
+        ),
+        (
+            SpeedUnit::KilometersPerHour,
+            DistanceUnit::Kilometers,
+            TimeUnit::Minutes,
+            DistanceUnit::Feet,
+            TimeUnit::Milliseconds,
+        ),
+        (
+            SpeedUnit::MilesPerHour,
+            DistanceUnit::Feet,
+            TimeUnit::Milliseconds,
+            DistanceUnit::Kilometers,
+            TimeUnit::Minutes,
+        ),
+        (
+            SpeedUnit::MetersPerSecond,
+            DistanceUnit::Inches,
+            TimeUnit::Hours,
+            DistanceUnit::Meters,
+            TimeUnit::Seconds,
+        ),
     ];
     // (an offset is a charge per edge: the least-cost route is no longer the shortest one when it has more edges)
-    let rates = [Rate::Raw, Rate::Factor(0.5), Rate::Combined(vec![Rate::Factor(2.0), Rate::Factor(0.25)]), Rate::Combined(vec![Rate::Factor(0.5), Rate::Offset(1.5)])];
+    let rates = [
+        Rate::Raw,
+        Rate::Factor(0.5),
+        Rate::Combined(vec![Rate::Factor(2.0), Rate::Factor(0.25)]),
+        Rate::Combined(vec![Rate::Factor(0.5), Rate::Offset(1.5)]),
+    ];
     // (the last table set posts edge 0 twice: two tables of a combined rate price it, and both count)
-    let sur: Vec<Vec<(usize, f64)>> = if m > 0 { vec![vec![], vec![(0, 3.5)], vec![(m - 1, 0.75)], vec![(0, 2.0), (m - 1, 0.75), (0, 1.5)]] } else { vec![vec![]] };
+    let sur: Vec<Vec<(usize, f64)>> = if m > 0 {
+        vec![
+            vec![],
+            vec![(0, 3.5)],
+            vec![(m - 1, 0.75)],
+            vec![(0, 2.0), (m - 1, 0.75), (0, 1.5)],
+        ]
+    } else {
+        vec![vec![]]
+    };
     let full = tier == Tier::Thorough;
     // distance worlds
     for (ui, (mu, fu)) in dist_units.iter().enumerate() {
         for (wi, wd) in [1.0, 0.3].iter().enumerate() {
             for (ri, r) in rates.iter().enumerate() {
                 for (si, s) in sur.iter().enumerate() {
-                    if !full && ((ui + wi + ri + si + idx as usize) % 6 != 0 || (si == 3 && idx % 2 == 1)) {
+                    if !full
+                        && ((ui + wi + ri + si + idx as usize) % 6 != 0
+                            || (si == 3 && idx % 2 == 1))
+                    {
                         continue;
                     }
                     let mut w = World::distance(net.clone());
@@ -54,16 +107,29 @@ pub fn worlds(net: &Net, tier: Tier, idx: u64) -> Vec<World> {
     }
     // speed worlds
     if m > 0 {
-        let speeds: Vec<f64> = (0..m).map(|e| [10.0, 30.0, 60.0][(e + idx as usize) % 3]).collect();
+        let speeds: Vec<f64> = (0..m)
+            .map(|e| [10.0, 30.0, 60.0][(e + idx as usize) % 3])
+            .collect();
         for (ui, (su, du, tu, fdu, ftu)) in speed_units.iter().enumerate() {
-            for (wi, (wd, wt)) in [(1.0, 0.0), (0.0, 1.0), (1.0, 1.0), (0.3, 2.0)].iter().enumerate() {
+            for (wi, (wd, wt)) in [(1.0, 0.0), (0.0, 1.0), (1.0, 1.0), (0.3, 2.0)]
+                .iter()
+                .enumerate()
+            {
                 for (ri, r) in rates.iter().enumerate() {
                     for (si, s) in sur.iter().enumerate() {
-                        if !full && ((ui * 5 + wi * 3 + ri + si + idx as usize) % 24 != 0 || (si == 3 && idx % 2 == 1)) {
+                        if !full
+                            && ((ui * 5 + wi * 3 + ri + si + idx as usize) % 24 != 0
+                                || (si == 3 && idx % 2 == 1))
+                        {
                             continue;
                         }
                         let mut w = World::distance(net.clone());
-                        w.trav = Trav::Speed { speed_unit: *su, dist_unit: *du, time_unit: *tu, speeds: speeds.clone() };
+                        w.trav = Trav::Speed {
+                            speed_unit: *su,
+                            dist_unit: *du,
+                            time_unit: *tu,
+                            speeds: speeds.clone(),
+                        };
                         w.feat_dist_unit = *fdu;
                         w.feat_time_unit = *ftu;
                         w.w_dist = *wd;
@@ -80,7 +146,13 @@ pub fn worlds(net: &Net, tier: Tier, idx: u64) -> Vec<World> {
     out
 }
 
-pub fn check_case(w: &World, algo: &Algo, orient: &Orient, reverse: bool, st: &mut Stats) -> Option<f64> {
+pub fn check_case(
+    w: &World,
+    algo: &Algo,
+    orient: &Orient,
+    reverse: bool,
+    st: &mut Stats,
+) -> Option<f64> {
     st.evaluations += 1;
     st.transitions += 1;
     st.traces += 1;
@@ -88,7 +160,13 @@ pub fn check_case(w: &World, algo: &Algo, orient: &Orient, reverse: bool, st: &m
     let si = match w.si() {
         Ok(si) => si,
         Err(e) => {
-            st.violation("harness", "si_build", 0, || e.clone(), || json!({"world": w}));
+            st.violation(
+                "harness",
+                "si_build",
+                0,
+                || e.clone(),
+                || json!({"world": w}),
+            );
             return None;
         }
     };
@@ -100,11 +178,19 @@ pub fn check_case(w: &World, algo: &Algo, orient: &Orient, reverse: bool, st: &m
         Orient::Vertex { o, d } => (*o, d.unwrap_or(*o)),
         Orient::Edge { o, d } => (net.edges[*o].1, d.map(|d| net.edges[d].0).unwrap_or(0)),
     };
-    let unit_mode = if w.tol() < 1e-6 { "base_units" } else { "mixed_units" };
+    let unit_mode = if w.tol() < 1e-6 {
+        "base_units"
+    } else {
+        "mixed_units"
+    };
     let comp = format!(
         "{}.{}.{}.{}",
         algo.component(),
-        if matches!(orient, Orient::Vertex { .. }) { "vertex" } else { "edge" },
+        if matches!(orient, Orient::Vertex { .. }) {
+            "vertex"
+        } else {
+            "edge"
+        },
         if reverse { "reverse" } else { "forward" },
         unit_mode
     );
@@ -130,14 +216,33 @@ pub fn check_case(w: &World, algo: &Algo, orient: &Orient, reverse: bool, st: &m
             };
             let got: f64 = inner.iter().map(|e| e.access + e.traversal).sum();
             let want = if start == target { 0.0 } else { bf[target] };
-            let n_paths = crate::refmodel::graph::simple_paths(net, start.min(net.n - 1), target.min(net.n - 1), &|_| true).len();
+            let n_paths = crate::refmodel::graph::simple_paths(
+                net,
+                start.min(net.n - 1),
+                target.min(net.n - 1),
+                &|_| true,
+            )
+            .len();
             if n_paths >= 2 {
                 st.nontrivial += 1;
             }
             if close(got, want, w.tol()) {
                 st.pass("route_cost_is_minimum");
             } else {
-                st.violation(&comp, "route_cost_is_minimum", size, || format!("route {:?} costs {} but the least cost over all paths is {}", route_ids(r), got, want), case);
+                st.violation(
+                    &comp,
+                    "route_cost_is_minimum",
+                    size,
+                    || {
+                        format!(
+                            "route {:?} costs {} but the least cost over all paths is {}",
+                            route_ids(r),
+                            got,
+                            want
+                        )
+                    },
+                    case,
+                );
             }
             Some(got)
         }
@@ -163,7 +268,16 @@ pub fn for_net(spec: &GenSpec, net: &Net, tier: Tier, idx: u64, st: &mut Stats) 
         for reverse in [false, true] {
             let mut costs = vec![];
             for algo in algos.iter() {
-                if let Some(c) = check_case(w, algo, &Orient::Vertex { o: 0, d: Some(n - 1) }, reverse, st) {
+                if let Some(c) = check_case(
+                    w,
+                    algo,
+                    &Orient::Vertex {
+                        o: 0,
+                        d: Some(n - 1),
+                    },
+                    reverse,
+                    st,
+                ) {
                     costs.push(c);
                 }
             }
@@ -172,7 +286,13 @@ pub fn for_net(spec: &GenSpec, net: &Net, tier: Tier, idx: u64, st: &mut Stats) 
                 if costs.iter().all(|c| close(*c, costs[0], w.tol())) {
                     st.pass("dijkstra_and_astar_agree");
                 } else {
-                    st.violation("astar_vs_dijkstra", "same_route_cost", net.size(), || format!("costs {:?}", costs), || json!({"world": w, "reverse": reverse}));
+                    st.violation(
+                        "astar_vs_dijkstra",
+                        "same_route_cost",
+                        net.size(),
+                        || format!("costs {:?}", costs),
+                        || json!({"world": w, "reverse": reverse}),
+                    );
                 }
             }
         }
@@ -200,12 +320,27 @@ pub fn for_net(spec: &GenSpec, net: &Net, tier: Tier, idx: u64, st: &mut Stats) 
                 w.w_dist = wd;
                 w.surcharge = vec![(e, sur)];
                 for reverse in [false, true] {
-                    check_case(&w, &Algo::Dijkstra, &Orient::Vertex { o: 0, d: Some(n - 1) }, reverse, st);
+                    check_case(
+                        &w,
+                        &Algo::Dijkstra,
+                        &Orient::Vertex {
+                            o: 0,
+                            d: Some(n - 1),
+                        },
+                        reverse,
+                        st,
+                    );
                 }
                 for o in 0..m {
                     for d in 0..m {
                         if o != d && (o * 5 + d * 3 + idx as usize) % 4 == 0 {
-                            check_case(&w, &Algo::Dijkstra, &Orient::Edge { o, d: Some(d) }, false, st);
+                            check_case(
+                                &w,
+                                &Algo::Dijkstra,
+                                &Orient::Edge { o, d: Some(d) },
+                                false,
+                                st,
+                            );
                         }
                     }
                 }
@@ -220,22 +355,57 @@ pub fn app_layer(net: &Net, idx: u64, st: &mut Stats) {
     if net.m() == 0 {
         return;
     }
-    let speeds: Vec<f64> = (0..net.m()).map(|e| [10.0, 30.0, 60.0][(e + idx as usize) % 3]).collect();
+    let speeds: Vec<f64> = (0..net.m())
+        .map(|e| [10.0, 30.0, 60.0][(e + idx as usize) % 3])
+        .collect();
     let mut w = World::distance(net.clone());
-    w.trav = Trav::Speed { speed_unit: SpeedUnit::KilometersPerHour, dist_unit: DistanceUnit::Meters, time_unit: TimeUnit::Seconds, speeds };
+    w.trav = Trav::Speed {
+        speed_unit: SpeedUnit::KilometersPerHour,
+        dist_unit: DistanceUnit::Meters,
+        time_unit: TimeUnit::Seconds,
+        speeds,
+    };
     w.term = Term::Unlimited;
     // configured objective: distance only
-    let cfg_weights: HashMap<String, f64> = [("distance".to_string(), 1.0), ("time".to_string(), 0.0)].into_iter().collect();
-    let cfg_rates = [("distance".to_string(), Rate::Raw.real()), ("time".to_string(), Rate::Raw.real())].into_iter().collect::<HashMap<_, _>>();
+    let cfg_weights: HashMap<String, f64> =
+        [("distance".to_string(), 1.0), ("time".to_string(), 0.0)]
+            .into_iter()
+            .collect();
+    let cfg_rates = [
+        ("distance".to_string(), Rate::Raw.real()),
+        ("time".to_string(), Rate::Raw.real()),
+    ]
+    .into_iter()
+    .collect::<HashMap<_, _>>();
     let variants: Vec<(&str, Value, (f64, f64, Rate, Rate))> = vec![
         ("configured", json!({}), (1.0, 0.0, Rate::Raw, Rate::Raw)),
-        ("query_weights", json!({"weights": {"distance": 0.0, "time": 1.0}}), (0.0, 1.0, Rate::Raw, Rate::Raw)),
-        ("query_weights_and_rates", json!({"weights": {"distance": 1.0, "time": 1.0}, "vehicle_rates": {"distance": {"type": "factor", "factor": 0.01}, "time": {"type": "factor", "factor": 3.0}}}), (1.0, 1.0, Rate::Factor(0.01), Rate::Factor(3.0))),
-        ("query_rates_only", json!({"vehicle_rates": {"distance": {"type": "factor", "factor": 2.0}, "time": {"type": "raw"}}}), (1.0, 0.0, Rate::Factor(2.0), Rate::Raw)),
+        (
+            "query_weights",
+            json!({"weights": {"distance": 0.0, "time": 1.0}}),
+            (0.0, 1.0, Rate::Raw, Rate::Raw),
+        ),
+        (
+            "query_weights_and_rates",
+            json!({"weights": {"distance": 1.0, "time": 1.0}, "vehicle_rates": {"distance": {"type": "factor", "factor": 0.01}, "time": {"type": "factor", "factor": 3.0}}}),
+            (1.0, 1.0, Rate::Factor(0.01), Rate::Factor(3.0)),
+        ),
+        (
+            "query_rates_only",
+            json!({"vehicle_rates": {"distance": {"type": "factor", "factor": 2.0}, "time": {"type": "raw"}}}),
+            (1.0, 0.0, Rate::Factor(2.0), Rate::Raw),
+        ),
         // weights that also name a feature this state model does not have (a query written for an energy-aware application):
         // the name is ignored, the other weights of the query stay in force
-        ("query_weights_with_unknown_name", json!({"weights": {"distance": 0.0, "time": 1.0, "energy_electric": 0.0}}), (0.0, 1.0, Rate::Raw, Rate::Raw)),
-        ("query_weights_with_unknown_name_first", json!({"weights": {"energy_liquid": 2.0, "distance": 0.25, "time": 3.0}}), (0.25, 3.0, Rate::Raw, Rate::Raw)),
+        (
+            "query_weights_with_unknown_name",
+            json!({"weights": {"distance": 0.0, "time": 1.0, "energy_electric": 0.0}}),
+            (0.0, 1.0, Rate::Raw, Rate::Raw),
+        ),
+        (
+            "query_weights_with_unknown_name_first",
+            json!({"weights": {"energy_liquid": 2.0, "distance": 0.25, "time": 3.0}}),
+            (0.25, 3.0, Rate::Raw, Rate::Raw),
+        ),
     ];
     for (name, extra, (wd, wt, rd, rt)) in variants {
         st.evaluations += 1;
@@ -250,11 +420,21 @@ pub fn app_layer(net: &Net, idx: u64, st: &mut Stats) {
         intended.w_time = wt;
         intended.r_dist = rd;
         intended.r_time = rt;
-        let app = w.search_app(Algo::Dijkstra.real(), cfg_weights.clone(), cfg_rates.clone(), false, Arc::new(NoRestriction {}));
+        let app = w.search_app(
+            Algo::Dijkstra.real(),
+            cfg_weights.clone(),
+            cfg_rates.clone(),
+            false,
+            Arc::new(NoRestriction {}),
+        );
         let qc = q.clone();
         let wc = w.clone();
         let case = move || json!({"app_layer": true, "world": wc, "query": qc});
-        let r = guarded(|| app.run(&q, &SearchOrientation::Vertex).map(|(res, _)| res.routes).map_err(|e| e.to_string()));
+        let r = guarded(|| {
+            app.run(&q, &SearchOrientation::Vertex)
+                .map(|(res, _)| res.routes)
+                .map_err(|e| e.to_string())
+        });
         let cost_of = |e: usize| Some(intended.ref_edge_cost(None, e));
         let bf = bellman_ford(net, 0, true, &cost_of);
         let comp = format!("search_app.{}", name);
@@ -262,7 +442,13 @@ pub fn app_layer(net: &Net, idx: u64, st: &mut Stats) {
             Err(p) => st.violation(&comp, "no_panic", net.size(), || p.clone(), case),
             Ok(Err(e)) => {
                 if bf[n - 1].is_finite() && n > 1 {
-                    st.violation(&comp, "reachable_returns_route", net.size(), || e.clone(), case);
+                    st.violation(
+                        &comp,
+                        "reachable_returns_route",
+                        net.size(),
+                        || e.clone(),
+                        case,
+                    );
                 }
             }
             Ok(Ok(routes)) => {
@@ -285,21 +471,112 @@ pub fn app_layer(net: &Net, idx: u64, st: &mut Stats) {
 pub fn specs(tier: Tier) -> Vec<GenSpec> {
     match tier {
         Tier::Quick => vec![
-            GenSpec { n: 3, max_edges: 5, max_mult: 2, n_len: 2, self_loops: true, mode: LenMode::Alphabet },
-            GenSpec { n: 4, max_edges: 5, max_mult: 2, n_len: 1, self_loops: false, mode: LenMode::PowersOfTwo },
-            GenSpec { n: 4, max_edges: 5, max_mult: 1, n_len: 2, self_loops: false, mode: LenMode::Metric },
-            GenSpec { n: 4, max_edges: 4, max_mult: 2, n_len: 3, self_loops: false, mode: LenMode::Alphabet },
-            GenSpec { n: 4, max_edges: 4, max_mult: 1, n_len: 3, self_loops: false, mode: LenMode::LineMetric },
+            GenSpec {
+                n: 3,
+                max_edges: 5,
+                max_mult: 2,
+                n_len: 2,
+                self_loops: true,
+                mode: LenMode::Alphabet,
+            },
+            GenSpec {
+                n: 4,
+                max_edges: 5,
+                max_mult: 2,
+                n_len: 1,
+                self_loops: false,
+                mode: LenMode::PowersOfTwo,
+            },
+            GenSpec {
+                n: 4,
+                max_edges: 5,
+                max_mult: 1,
+                n_len: 2,
+                self_loops: false,
+                mode: LenMode::Metric,
+            },
+            GenSpec {
+                n: 4,
+                max_edges: 4,
+                max_mult: 2,
+                n_len: 3,
+                self_loops: false,
+                mode: LenMode::Alphabet,
+            },
+            GenSpec {
+                n: 4,
+                max_edges: 4,
+                max_mult: 1,
+                n_len: 3,
+                self_loops: false,
+                mode: LenMode::LineMetric,
+            },
         ],
         Tier::Thorough => vec![
-            GenSpec { n: 3, max_edges: 6, max_mult: 2, n_len: 2, self_loops: true, mode: LenMode::Alphabet },
-            GenSpec { n: 4, max_edges: 5, max_mult: 2, n_len: 2, self_loops: false, mode: LenMode::Alphabet },
-            GenSpec { n: 4, max_edges: 6, max_mult: 1, n_len: 1, self_loops: false, mode: LenMode::PowersOfTwo },
-            GenSpec { n: 4, max_edges: 5, max_mult: 1, n_len: 2, self_loops: false, mode: LenMode::Metric },
-            GenSpec { n: 4, max_edges: 5, max_mult: 1, n_len: 3, self_loops: false, mode: LenMode::Metric },
-            GenSpec { n: 5, max_edges: 5, max_mult: 1, n_len: 1, self_loops: false, mode: LenMode::Metric },
-            GenSpec { n: 4, max_edges: 5, max_mult: 1, n_len: 3, self_loops: false, mode: LenMode::LineMetric },
-            GenSpec { n: 5, max_edges: 5, max_mult: 1, n_len: 2, self_loops: false, mode: LenMode::LineMetric },
+            GenSpec {
+                n: 3,
+                max_edges: 6,
+                max_mult: 2,
+                n_len: 2,
+                self_loops: true,
+                mode: LenMode::Alphabet,
+            },
+            GenSpec {
+                n: 4,
+                max_edges: 5,
+                max_mult: 2,
+                n_len: 2,
+                self_loops: false,
+                mode: LenMode::Alphabet,
+            },
+            GenSpec {
+                n: 4,
+                max_edges: 6,
+                max_mult: 1,
+                n_len: 1,
+                self_loops: false,
+                mode: LenMode::PowersOfTwo,
+            },
+            GenSpec {
+                n: 4,
+                max_edges: 5,
+                max_mult: 1,
+                n_len: 2,
+                self_loops: false,
+                mode: LenMode::Metric,
+            },
+            GenSpec {
+                n: 4,
+                max_edges: 5,
+                max_mult: 1,
+                n_len: 3,
+                self_loops: false,
+                mode: LenMode::Metric,
+            },
+            GenSpec {
+                n: 5,
+                max_edges: 5,
+                max_mult: 1,
+                n_len: 1,
+                self_loops: false,
+                mode: LenMode::Metric,
+            },
+            GenSpec {
+                n: 4,
+                max_edges: 5,
+                max_mult: 1,
+                n_len: 3,
+                self_loops: false,
+                mode: LenMode::LineMetric,
+            },
+            GenSpec {
+                n: 5,
+                max_edges: 5,
+                max_mult: 1,
+                n_len: 2,
+                self_loops: false,
+                mode: LenMode::LineMetric,
+            },
         ],
     }
 }
@@ -344,7 +621,10 @@ pub fn replay(case: &Value) -> i32 {
         }
     };
     let algo: Algo = serde_json::from_value(case["algo"].clone()).unwrap_or(Algo::Dijkstra);
-    let orient: Orient = serde_json::from_value(case["orient"].clone()).unwrap_or(Orient::Vertex { o: 0, d: Some(w.net.n - 1) });
+    let orient: Orient = serde_json::from_value(case["orient"].clone()).unwrap_or(Orient::Vertex {
+        o: 0,
+        d: Some(w.net.n - 1),
+    });
     let reverse = case["reverse"].as_bool().unwrap_or(false);
     let mut st = Stats::new();
     let c = check_case(&w, &algo, &orient, reverse, &mut st);
@@ -352,5 +632,9 @@ pub fn replay(case: &Value) -> i32 {
     for (k, g) in st.violations.iter() {
         println!("REPLAY-VIOLATION {} {}", k, g.detail);
     }
-    if st.violations.is_empty() { 0 } else { 1 }
+    if st.violations.is_empty() {
+        0
+    } else {
+        1
+    }
 }
